@@ -9,13 +9,28 @@ Local Open Scope nat_scope.
 Record regs := mk_regs { ra : variant; rb : variant; rc : variant; rd : variant }.
 Definition regs0 : regs := mk_regs (VInteger 0%Z) (VInteger 0%Z) (VInteger 0%Z) (VInteger 0%Z).
 
+(** the machine's devices and call state: screen, DATA items not yet read, the argument lists being
+    collected, the frames of built-in calls in progress (values with the variable they came from),
+    the queue of by-reference results *)
+Definition marg : Type := (variant * option name)%type.
+Record mio := mk_mio {
+  mscr : dev;
+  mdat : list variant;
+  margs : list (list marg);
+  mframes : list (list marg);
+  mbyref : list variant;
+}.
+Definition to_mio (i : io) : mio := mk_mio (scr i) (dat i) [] [] [].
+Definition of_mio (m : mio) : io := mk_io (mscr m) (mdat m).
+Definition mset_scr (m : mio) (d : dev) : mio := mk_mio d (mdat m) (margs m) (mframes m) (mbyref m).
+
 Record mstate := mk_m {
   pc : nat;
   rstack : list regs;          (* register stack, current frame first *)
   vstack : list variant;       (* value stack, top first *)
   pstack : list name;          (* var path stack, most recent first *)
   mvars : env;
-  mscreen : dev;
+  mscreen : mio;
   mskip : bool;                (* PrintState.should_skip_new_line *)
 }.
 
@@ -102,14 +117,14 @@ Definition step (code : list ipos) (s : mstate) : mresult :=
       | IHalt => MHalted s
       | IPrintSetPrinterType => MRunning (next s)
       | IPrintSetFormat => MRunning (next s)
-      | IPrintComma => MRunning (next (mk_m (pc s) (rstack s) (vstack s) (pstack s) (mvars s) (next_zone (mscreen s)) true))
+      | IPrintComma => MRunning (next (mk_m (pc s) (rstack s) (vstack s) (pstack s) (mvars s) (mset_scr (mscreen s) (next_zone (mscr (mscreen s)))) true))
       | IPrintSemi => MRunning (next (mk_m (pc s) (rstack s) (vstack s) (pstack s) (mvars s) (mscreen s) true))
       | IPrintValue =>
           MRunning (next (mk_m (pc s) (rstack s) (vstack s) (pstack s) (mvars s)
-                               (print (mscreen s) (item_text (item_of num_text is_negative (ra r)))) false))
+                               (mset_scr (mscreen s) (print (mscr (mscreen s)) (item_text (item_of num_text is_negative (ra r))))) false))
       | IPrintEnd =>
           MRunning (next (mk_m (pc s) (rstack s) (vstack s) (pstack s) (mvars s)
-                               (if mskip s then mscreen s else println (mscreen s)) false))
+                               (if mskip s then mscreen s else mset_scr (mscreen s) (println (mscr (mscreen s)))) false))
       | IOther => MPanic 5 s
       end
   end.
@@ -120,6 +135,6 @@ Fixpoint run (fuel : nat) (code : list ipos) (s : mstate) : mresult :=
   | S f => match step code s with MRunning s' => run f code s' | r => r end
   end.
 
-Definition m0 : mstate := mk_m 0 [regs0] [] [] [] dev0 false.
+Definition m0 : mstate := mk_m 0 [regs0] [] [] [] (to_mio io0) false.
 
 End WithNumberText.
